@@ -496,3 +496,70 @@ Proof.
   - split; Z.div_mod_to_equations; nia.
   - assert (atoMS = 0) by lia. subst atoMS. split; Z.div_mod_to_equations; nia.
 Qed.
+
+(** * Witnesses of the defects (concrete sessions evaluated by [vm_compute]) *)
+
+(** 2.002 s segments as in the bundled 29.97 fps asset (4 segments, timescale 30000, loop 8008 ms). *)
+Definition rep2997 : rep :=
+  {| segs := [ {| st := 0; en := 60060; snr := 1 |}; {| st := 60060; en := 120120; snr := 2 |};
+               {| st := 120120; en := 180180; snr := 3 |}; {| st := 180180; en := 240240; snr := 4 |} ];
+     ts := 30000 |}.
+Definition trig : event := EvTrigger {| fi_clock := []; fi_refuse := [] |}.
+Definition cf2997 (chunked : bool) (c : tcfg) : scfg :=
+  mk_scfg [ {| ir_kind := RVideo; ir_tab := Some rep2997 |} ] rep2997 8008 2002 c false true None chunked.
+
+(** Step mode from testNowMS = 10000, five triggers: attempts 4,5,6,7,8 are made at
+    10010, 12012, 14014, 16015 (one millisecond early), 18018; the receiver gets 4,5,6,8. *)
+Lemma gap_witness :
+  let '(_, gs, st) := session (cf2997 false cfg0) 10000 [] [trig; trig; trig; trig; trig] in
+  map (map (fun m => (mp_nr m, mp_now m, mp_ok m))) gs =
+    [[(4, 10010, true)]; [(5, 12012, true)]; [(6, 14014, true)]; [(7, 16015, false)]; [(8, 18018, true)]]
+  /\ ph st = PRunning.
+Proof. vm_compute. split; reflexivity. Qed.
+
+(** The same with chunked transfer (ato 1 s): the rejected request of number 7 ends the process. *)
+Lemma chunked_crash_witness :
+  let c := {| startS := 0; startNr := 0; tsbdS := 60; ato := Some 1000 |} in
+  let '(_, gs, st) := session (cf2997 true c) 15000 [] [trig; trig] in
+  map (map (fun m => (mp_nr m, mp_now m, mp_ok m))) gs = [[(7, 15015, false)]] /\
+  ph st = PCrashed "startReadAndSendChunked: send on closed channel".
+Proof. vm_compute. split; reflexivity. Qed.
+
+(** 2 s segments (4 segments at 90 kHz, loop 8 s). *)
+Definition rep2s : rep :=
+  {| segs := [ {| st := 0; en := 180000; snr := 1 |}; {| st := 180000; en := 360000; snr := 2 |};
+               {| st := 360000; en := 540000; snr := 3 |}; {| st := 540000; en := 720000; snr := 4 |} ];
+     ts := 90000 |}.
+
+(** Real-time mode with duration 2 s (numbers 5 and 6, the second marked last): if the upload of
+    number 5 ends after number 6 became available, number 6 is sent by the catch-up loop without
+    lmsg; if the sender stays behind, it goes on beyond the duration. *)
+Lemma catchup_witness :
+  let cf := mk_scfg [ {| ir_kind := RVideo; ir_tab := Some rep2s |} ] rep2s 8000 2000 cfg0 false false (Some 2) false in
+  (let '(_, gs, st) := session cf 11200 [] [EvTimer {| fi_clock := [14300; 14301]; fi_refuse := [] |}] in
+   map (map (fun m => (mp_nr m, mp_last m))) gs = [[(5, false)]; [(6, false)]] /\ ph st = PStopped /\ lastToSend st = 6)
+  /\
+  (let '(_, gs, st) := session cf 11200 [] [EvTimer {| fi_clock := [14300; 16400; 18500; 18501]; fi_refuse := [] |}] in
+   map (map (fun m => (mp_nr m, mp_last m))) gs = [[(5, false)]; [(6, false)]; [(7, false)]; [(8, false)]] /\ lastToSend st = 6).
+Proof. vm_compute. repeat split; reflexivity. Qed.
+
+(** A start number: the first number is counted from 0 (live edge at 10000 ms with snr 3 is 7). *)
+Lemma startnr_witness :
+  let c := {| startS := 0; startNr := 3; tsbdS := 60; ato := Some 0 |} in
+  let cf := mk_scfg [ {| ir_kind := RVideo; ir_tab := Some rep2s |} ] rep2s 8000 2000 c false true None false in
+  (let '(_, gs, _) := session cf 10000 [] [trig] in map (map (fun m => (mp_nr m, mp_now m, mp_ok m))) gs = [[(5, 6000, true)]]) /\
+  lookup rep2s 8000 c ByNumber 7 10000 = TOk {| origTime := 0; newTime := 720000; origNr := 1; newNr := 7; origDur := 180000; newDur := 180000; mtimescale := 90000 |} /\
+  lookup rep2s 8000 c ByNumber 8 10000 = TTooEarly 2000.
+Proof. vm_compute. repeat split; reflexivity. Qed.
+
+(** Non-vacuity of the duration theorem on the same table: duration 5 s, 2 s segments, 4 triggers. *)
+Lemma duration_example :
+  let cf := mk_scfg [ {| ir_kind := RVideo; ir_tab := Some rep2s |}; {| ir_kind := RAudio; ir_tab := None |} ]
+                    rep2s 8000 2000 cfg0 false true (Some 5) false in
+  let '(inits, gs, st) := session cf 10000 [] [trig; trig; trig; trig] in
+  inits = [0; 1] /\
+  map (map (fun m => (mp_rep m, mp_nr m, mp_now m, mp_last m, mp_ok m))) gs =
+    [[(0, 5, 12000, false, true); (1, 5, 12000, false, true)];
+     [(0, 6, 14000, false, true); (1, 6, 14000, false, true)];
+     [(0, 7, 16000, true, true); (1, 7, 16000, true, true)]] /\ ph st = PStopped.
+Proof. vm_compute. repeat split; reflexivity. Qed.
